@@ -2,6 +2,8 @@ use std::mem;
 
 use tokio::io::{self, AsyncRead, AsyncReadExt};
 
+use super::read_exact_to_vec;
+
 pub(super) async fn read_record<R>(reader: &mut R, buf: &mut Vec<u8>) -> io::Result<usize>
 where
     R: AsyncRead + Unpin,
@@ -13,8 +15,7 @@ where
         n => n,
     };
 
-    buf.resize(block_size, 0);
-    reader.read_exact(buf).await?;
+    read_exact_to_vec(reader, buf, block_size).await?;
 
     validate(buf)?;
 
